@@ -29,8 +29,8 @@
    Text WITH numbering (end of file, proofs/TextNested.v): C04_text_nested -- `name{P}` for every payload P in
    which literal runs alternate with `$` counters, `$#` and `${n}` / `${n:placeholder}` fields at ANY depth of
    inner braces (the fact behind repair 86fc68a, `p{{$}}`), with C04_tokenize_nested, C04_nested_closing_brace,
-   C04_parse_nested, C04_nested_value_text, C04_nested_value_flat, C04_nested_scanner, C04_nested_repeated (copy i
-   of `name{P}*N`); C04_nested_extends_text_literal shows C04_text_literal is its one-run case.
+   C04_parse_nested, C04_nested_value_text, C04_nested_value_flat, C04_nested_scanner, C04_nested_repeated_partial (copy i
+   of `name{P}*N`, P without `$#`); C04_nested_extends_text_literal shows C04_text_literal is its one-run case.
    Not covered by a theorem: `$` numbering / fields inside attribute values, text written
    between the attribute parts (`a{t}.c`), text under the haml / pug / slim formatters -- these are
    covered by the model/implementation correspondence and the oracle. *)
@@ -433,14 +433,16 @@ Theorem C04_nested_closing_brace :
     exists inner,
       tokenize s = TOk (mkTok (TLiteral name) 0 (length name)
                         :: mkTok (TBracket true BExpr) (length name) (length name + 1)
-                        :: inner ++ [mkTok (TBracket false BExpr) (length s - 1) (length s)]) /      Forall not_expr_bracket inner.
+                        :: inner ++ [mkTok (TBracket false BExpr) (length s - 1) (length s)]) /\
+      Forall not_expr_bracket inner.
 Proof. exact nested_closing_brace. Qed.
 Print Assumptions C04_nested_closing_brace.
 
 (* (2) the parser: ONE element whose value is the list of the payload's tokens, in order *)
 Theorem C04_parse_nested :
   forall (jsx : bool) (name : str) (P : payload), name_ok name -> payload_ok P = true ->
-    exists toks, tokenize (name ++ c_lbrace :: payload_text P ++ [c_rbrace]) = TOk toks /      parse jsx toks =
+    exists toks, tokenize (name ++ c_lbrace :: payload_text P ++ [c_rbrace]) = TOk toks /\
+      parse jsx toks =
         POk [TElem (Some [mkTok (TLiteral name) 0 (length name)]) None
                    (Some (payload_tokens (length name + 1) P)) None false []].
 Proof. exact parse_nested. Qed.
@@ -474,7 +476,56 @@ Print Assumptions C04_nested_value_flat.
 Theorem C04_nested_extends_text_literal :
   forall (T : str) (reps : list rep),
     payload_ok (T, []) = bal 0 T /\ payload_text (T, []) = T /\ nested_value reps (T, []) = text_value T.
-Proof.
-  intros T reps. split; [apply payload_ok_run|]. split; [apply app_nil_r|apply nested_value_run].
-Qed.
+Proof. exact nested_extends_text_literal. Qed.
 Print Assumptions C04_nested_extends_text_literal.
+
+(* nested_repeated.  `name{P}*N`, N written as the digit string [ds] ([count_of ds] = int(ds), `*0` counting as 1)
+   and a maxRepeat limit that does not cut it short: exactly N nodes, copy i (0-based) carrying the payload under the
+   repeater stack [(N, i)]; by C04_nested_value_text its text is the literal runs, unescaped, with every counter --
+   at whatever brace depth -- replaced by the value of copy i+1 (C02_counter_in_nested_text in props/C02.v).
+   _partial: stated for payloads without `$#` ([no_ph]; with `$#` the copy loop also records that the text was
+   taken -- that case is C04_wrap_implicit / C02_limit_full_with_wrap on the token tree of C04_parse_nested) and for
+   the element alone (no attributes / children beside the text).
+   Full statement: the same for every payload_ok P, `$#` included. *)
+Theorem C04_nested_repeated_partial :
+  forall (jsx : bool) (env : cenv) (max_repeat : option N) (name : str) (P : payload) (ds : str),
+    name_ok name -> payload_ok P = true -> no_ph P = true -> all_digits ds -> ds <> [] -> ce_text env = WNone ->
+    let n := count_of ds in
+    (Z.of_N n <= budget_of max_repeat)%Z ->
+    parse_abbr jsx env max_repeat (name ++ c_lbrace :: payload_text P ++ c_rbrace :: c_star :: ds) =
+      Ok (map (fun i => ANode (Some name) (nested_value [mkRep n i false] P) (Some (mkRep n i false)) None [] false)
+              (nseq (N.to_nat n) 0%N)).
+Proof. exact text_nested_repeated. Qed.
+Print Assumptions C04_nested_repeated_partial.
+
+(* non-vacuity: `p{a{$}b{{$$@-}c}${1:x{y}}}` -- counters one and two braces deep, a field whose placeholder holds
+   braces; the hypotheses hold and the conclusion computes, alone and as `...*2` *)
+Definition nested_example : payload :=
+  (S "a{", [(INum 1 false false [], S "}b{{"); (INum 2 true true [], S "}c}"); (IField (S "1") (Some (S "x{y}")), [])]).
+Example C04_nested_nonvacuous :
+  name_ok (S "p") /\ payload_ok nested_example = true /\ no_ph nested_example = true /\
+  payload_text nested_example = S "a{$}b{{$$@-}c}${1:x{y}}" /\
+  parse_abbr false (mkCenv WNone [] false) None (S "p{a{$}b{{$$@-}c}${1:x{y}}}") =
+    Ok [ANode (Some (S "p")) (Some [VStr (S "a{1}b{{01}c}"); VField 1 (S "x{y}")]) None None [] false] /\
+  parse_abbr false (mkCenv WNone [] false) None (S "p{a{$}b{{$$@-}c}${1:x{y}}}*2") =
+    Ok [ANode (Some (S "p")) (Some [VStr (S "a{1}b{{02}c}"); VField 1 (S "x{y}")]) (Some (mkRep 2 0 false)) None [] false;
+        ANode (Some (S "p")) (Some [VStr (S "a{2}b{{01}c}"); VField 1 (S "x{y}")]) (Some (mkRep 2 1 false)) None [] false].
+Proof.
+  split; [split; [discriminate|repeat constructor]|].
+  split; [vm_compute; reflexivity|]. split; [vm_compute; reflexivity|].
+  split; [vm_compute; reflexivity|]. split; vm_compute; reflexivity.
+Qed.
+
+(* the theorem was FALSE before repair 86fc68a: with the tokenizer as it was ([tokenize_old]: literal() takes the
+   depth it is resumed at for the depth of the text) `p{{$}}` -- payload ("{", [($, "}")]), in the domain of
+   C04_text_nested -- is rejected: the inner `}` closes the text and the outer one is left over *)
+Example C04_nested_false_before_repair :
+  payload_ok (S "{", [(INum 1 false false [], S "}")]) = true /\
+  payload_text (S "{", [(INum 1 false false [], S "}")]) = S "{$}" /\
+  parses_old false (S "p{{$}}") = false /\
+  tokenize_old (S "p{{$}}") =
+    TOk [mkTok (TLiteral (S "p")) 0 1; mkTok (TBracket true BExpr) 1 2; mkTok (TLiteral (S "{")) 2 3;
+         mkTok (TRepeaterNumber 1 false 1 0) 3 4; mkTok (TBracket false BExpr) 4 5; mkTok (TBracket false BExpr) 5 6] /\
+  parse_abbr false (mkCenv WNone [] false) None (S "p{{$}}") =
+    Ok [ANode (Some (S "p")) (Some [VStr (S "{1}")]) None None [] false].
+Proof. repeat split; vm_compute; reflexivity. Qed.
